@@ -23,6 +23,20 @@ CLAIMS = {
               "per source and LYC. The real PPU runs with IF read and cleared after every machine cycle for each single source x LYC values over whole frames and under on/off schedules; TLC validates the request bits of every cycle."),
         design="5/C14", technique="TLA+ request conditions + TLC MC per source/LYC; TLC trace validation of per-cycle IF observations",
         note="Several sources at once, LYC changes while on, the OAM source on line 144 / at switch-on are not judged."),
+    "C16": dict(
+        category="model_checking",
+        text=("DMA.tla: a (re)startable transfer that completes at some cycle within a bound, blocks OAM reads meanwhile and leaves each OAM byte with a value its source byte held during the transfer; TLC checks the clauses on a scaled "
+              "machine with restarts, source writes and reads at every cycle. Real transfers from every source page (ROM pattern, VRAM, cartridge RAM, WRAM, echo) are run with an OAM read after every machine cycle, restarts at every cycle "
+              "and source mutation mid-transfer; TLC infers the completion cycle (<= 162) and validates every read and the final OAM contents."),
+        design="5/C16", technique="TLA+ transfer spec + TLC MC on a scaled model; TLC trace validation with the completion cycle inferred",
+        note="The completion cycle is only bounded from above, as in the statement; sources are observed through Mapper.Read."),
+    "C17": dict(
+        category="model_checking",
+        text=("OamBug.tla states when the corruption may strike (LCD on and the cycle touches mode 2) and what explains a change of an OAM byte (a CPU write of that value, an active DMA, or the armed bug); a closed model of the arming "
+              "condition under the line schedule and LCD switches is model-checked. Generated programs move all 16-bit registers and SP through FE00-FEFF on the real CPU+PPU+OAM; every machine cycle's OAM diff (side-effect-free snapshot) "
+              "is validated by TLC, with the LCD switched off at every cycle of lines in every mode and with the LCD on outside mode 2."),
+        design="5/C17", technique="TLA+ per-cycle explanation predicate + TLC MC of the arming model; TLC trace validation of per-cycle OAM diffs",
+        note="Cycles that touch mode 2 at either end are free (the corruption pattern itself is not part of the statement)."),
     "C22": dict(
         category="model_checking",
         text=("Joypad.tla is model-checked over its complete state space (576 states, all 16 key events and all 256 JOYP writes). "
